@@ -384,6 +384,16 @@ func solveOb(o *Obligation, qdir string, timeoutS int, thorough bool, expectSat 
 		}
 	}
 	file := full
+	if thorough && best.Status == "unsat" {
+		// thorough tier: every solver is asked about the complete query; one that refutes what another proves is
+		// reported (a weakened variant answering sat is expected and does not count)
+		for _, x := range all {
+			if x.Status == "sat" && !strings.HasSuffix(x.Solver, ")") {
+				best.Status = "disagree"
+				best.Solver = best.Solver + " vs " + x.Solver
+			}
+		}
+	}
 	if liteSat && best.Status != "unsat" && best.Status != "sat" {
 		best.Status = "sat-lite"
 		best.Solver = "z3-new(lite)"
